@@ -103,7 +103,7 @@ func (block *CBlock) updateTop(changedCandidates []*Candidate) {
 	} else if block.Top.Count() > newTop.Count() {
 		// some candidates unregistered. so maybe some normal nodes will become new candidates
 		// resort all candidates
-		block.Top.Rank(max_candidate_count, block.CandidateTrieDB.GetAll())
+		block.Top.Rank(max_candidate_count, block.registeredCandidates())
 	} else if newTop.Min().Total.Cmp(block.Top.Min().Total) >= 0 {
 		// the min votes become bigger, it means some old candidates get richer now.
 		// the other candidates whose vote is not changed, must not be in the top list. so we can just use the newTop
@@ -112,12 +112,30 @@ func (block *CBlock) updateTop(changedCandidates []*Candidate) {
 		// the min votes become smaller, it means some old candidates lose their vote.
 		// maybe the loser candidates will become normal nodes, and some normal nodes will become new candidates
 		// resort all candidates
-		block.Top.Rank(max_candidate_count, block.CandidateTrieDB.GetAll())
+		block.Top.Rank(max_candidate_count, block.registeredCandidates())
 	}
 }
 
+// registeredCandidates returns all known candidates which are still registered in this block's account view.
+// The all-candidates index keeps unregistered candidates (with 0 votes), they must not be ranked
+func (block *CBlock) registeredCandidates() []*Candidate {
+	all := block.CandidateTrieDB.GetAll()
+	result := make([]*Candidate, 0, len(all))
+	for _, candidate := range all {
+		account, err := block.AccountTrieDB.Get(candidate.Address)
+		if err != nil || account == nil {
+			continue
+		}
+		if account.Candidate.Profile[types.CandidateKeyIsCandidate] == types.IsCandidateNode {
+			result = append(result, candidate.Copy())
+		}
+	}
+	return result
+}
+
 func (block *CBlock) Ranking(voteLogs types.ChangeLogSlice) {
-	if len(voteLogs) <= 0 {
+	// a candidate whose votes are 0 already produces no vote log when it unregisters. It must leave the list all the same
+	if len(voteLogs) <= 0 && len(block.collectUnregisters()) <= 0 {
 		return
 	}
 	// collect changed candidates
